@@ -91,9 +91,17 @@ static void extern_products(Ctx &c, int reps, double alpha) {
         J ctx; ctx.s("message", mcls_name[mc]).s("tlwe_class", ccls_name[cc]).b("noisy_rows", noisy).d("m_l1", l1);
         uint64_t hA = 0; for (int p = 0; p < c.tg->kpl; p++) for (int i = 0; i <= c.k; i++) hA = fnv1a(A->all_sample[p].a[i].coefsT, 4 * N, hA ? hA : 1469598103934665603ULL);
         VH_OP("tGswExternProduct:%s", c.cfg.c_str());
-        tGswExternProduct(r1, A, cin, c.tg);
-        ref_tlwe_phase(ph1, r1, c.key->key, N, c.k);
-        check_phase(c, "tGswExternProduct", ph1, want, bound, ctx);
+        uint64_t hcin = 7; for (int i = 0; i <= c.k; i++) hcin = fnv1a(cin->a[i].coefsT, 4 * N, hcin);
+        // the same input sample is used for several products in a row (one data sample against many selectors):
+        // every product must still be m * phase(c) for the phase c had before the sequence
+        int repeats = 1 + (rep % 4 == 0 ? 5 : 0);
+        for (int q = 0; q < repeats; q++) {
+            tGswExternProduct(r1, A, cin, c.tg);
+            ref_tlwe_phase(ph1, r1, c.key->key, N, c.k);
+            check_phase(c, q == 0 ? "tGswExternProduct" : "tGswExternProduct(repeated-on-same-input)", ph1, want, bound, ctx);
+        }
+        { uint64_t h2 = 7; for (int i = 0; i <= c.k; i++) h2 = fnv1a(cin->a[i].coefsT, 4 * N, h2); out.evaluations++;
+          if (h2 != hcin) out.viol("extprod:tlwe-input-modified", J().s("config", c.cfg).s("op", "tGswExternProduct").i("products_on_same_input", repeats)); }
         VH_OP("tGswExternMulToTLwe:%s", c.cfg.c_str());
         tLweCopy(r2, cin, c.tl);
         tGswExternMulToTLwe(r2, A, c.tg);
